@@ -84,6 +84,7 @@ def checkC06 (trace : List (Rec × List Rec)) : Option String := Id.run do
       if r.ints "weak" != wantWeak then return some s!"unit {t}: weaknesses {r.ints "weak"} are not the union {wantWeak} of the unit's own and its attached instances'"
       let out := propTotal base l 5 * (1 + atkpct) + (propTotal base l 7 + propTotal base l 8)
       if !close (r.flt "atk") (if out < 0 then 0 else out) then return some s!"unit {t}: ATK is not base×(1+percent)+flat"
+      if !close (r.flt "spd") (ModAdapter.spdOf base l) then return some s!"unit {t}: SPD {r.flt "spd"} is not base×(1+percent)+flat+converted = {ModAdapter.spdOf base l}"
     -- (b) snapshots are private
     if op.name == "mutsnap" && !prev.isEmpty then
       if lists.map Wire.Rec.render != prev.map Wire.Rec.render then
